@@ -131,7 +131,7 @@ structure Spec (K : Type) where
   nmodes : Nat
   heap : List (List K)
   cur : Nat
-deriving Repr
+deriving Repr, DecidableEq
 
 /-- The specification ignores the surface arrays altogether: what a caller does to an array it
 received earlier has no bearing on what the mirror's surface is. -/
@@ -154,6 +154,31 @@ def Spec.run [Zero K] [Add K] [Mul K] (s : Spec K) : List (Op K) → List (List 
   | op :: rest =>
     let r := s.step op
     (match r.2 with | some x => [x] | none => []) ++ Spec.run r.1 rest
+
+/-- the state of the specification after a history (the driver steps it alongside the cached
+mirror, one `Spec.step` per operation) -/
+def Spec.after [Zero K] [Add K] [Mul K] (s : Spec K) : List (Op K) → Spec K
+  | [] => s
+  | op :: rest => Spec.after (s.step op).1 rest
+
+/-! ### Read-outs derived from the surface: `opd`
+
+`opd` is `2 * self.surface`: one evaluation of the `surface` property (cache validated or
+recomputed exactly as for a read; the array it returns is kept by nobody else) and a new array
+with every value doubled (`2 * x` is `x + x`, exactly, in binary floating point as well).
+`phase_for`, `forward` and `backward` multiply the same surface by `4π/λ` resp. exponentiate it;
+they are compared numerically by the harness, not modelled. -/
+
+/-- `2 * s`, element by element -/
+def double [Add K] (s : List K) : List K := s.map fun x => x + x
+
+/-- the `opd` property of the cached mirror -/
+def readOpd [Zero K] [Add K] [Mul K] [DecidableEq K] (m : Mirror K) : Mirror K × List K :=
+  let r := read m
+  (r.1, double r.2)
+
+/-- what the optical path difference has to be: `2 · IF · actuators`, no cache involved -/
+def Spec.opd [Zero K] [Add K] [Mul K] (s : Spec K) : List K := double (matvec s.infl s.acts)
 
 /-! ### Broken caches (for counterexamples) -/
 
